@@ -1,7 +1,7 @@
 CONSTANTS
   MaxReqs = 2
   Stores = {"cookie", "redis"}
-  DomainCfgs = {"none", "dotted", "backend_fail"}
+  DomainCfgs = {"none", "dotted", "backend_fail", "backend_reset"}
   DeleteKey = TRUE
 INIT Init
 NEXT Next
